@@ -9,6 +9,15 @@ Structured fuzzing of every message a client or server parses. A *case* is one s
                    exec_command / invoke_shell / invoke_subsystem / get_pty / request_x11 on the
                    open channel ("postc": only messages for that channel, mutations that prefer
                    its text fields);
+  family "reply" : answer-centred, either role: 1-3 rounds on one authenticated session; per round an application call
+                   that waits for the peer's ANSWER is started on the tested side - a channel open of every kind
+                   (open_session, open_channel direct-tcpip, open_x11_channel, open_forwarded_tcpip_channel,
+                   open_forward_agent_channel), a channel request (exec_command, invoke_shell, invoke_subsystem, get_pty,
+                   request_x11, set_environment_variable) or a global request (request_port_forward port 0 / fixed,
+                   cancel_port_forward, global_request(wait=True)) - and the puppet answers exactly that call:
+                   OPEN_CONFIRMATION / OPEN_FAILURE, CHANNEL_SUCCESS / FAILURE, REQUEST_SUCCESS / FAILURE from the grammar,
+                   addressed with the ids really in use, with mutations that prefer the INTEGER fields (recipient / sender
+                   ids, reason codes, window and packet sizes, ports); 0-1 further answers of any category follow;
   family "authc" : tested client inside auth_none/password/publickey/interactive while a
                    raw-mode puppet server answers with mutated SERVICE_ACCEPT/USERAUTH_* messages;
                    "authk": whole keyboard-interactive conversations - SERVICE_ACCEPT, 1-3
@@ -24,8 +33,9 @@ Oracle: whatever start_client / start_server / the pending auth_* call raises, a
 get_exception() returns - afterwards to the harness, or meanwhile to paramiko's own callers: a
 blocked channel call re-raises and clears it, so the method is wrapped on the tested instance and
 every value it hands out is judged - is an SSHException, EOFError or OSError - or nothing failed.
-What a pending channel call raises beyond that is only counted (the statement names connect,
-start_client, start_server, the auth calls and get_exception).
+The same holds for what an application call that was waiting for the peer (open_session / open_channel, channel
+request, global request: families post, postc, reply) raises itself, in the caller's thread (clause pending-call-raises:
+"a resulting failure is reported through the documented API as an SSHException ... internal errors never escape").
 Bucket = exception class + innermost paramiko frame.  Hangs are "inconclusive", never violations.
 """
 import os
@@ -40,12 +50,16 @@ from vlib import refssh as R
 PROPERTY = "C38"
 LEVEL = "exploration"
 RULE = (
-    "session scripts (family pre/post/authc/auths/wire x role x stage) with messages built from a per-type field grammar "
+    "session scripts (family pre/post/postc/reply/authc/authk/auths/wire x role x stage) with messages built from a per-type field grammar "
     "and 0-3 mutations (field value replaced by boundary/random/invalid-UTF-8/huge-length values, a string field - chosen among the "
     "string fields only - made undecodable by replacing it or splicing one invalid byte into it, field dropped/duplicated/"
     "retyped, message truncated, trailing garbage, wrong stage/role); post: optionally an application call (open_session, exec_command, "
     "invoke_shell, invoke_subsystem, get_pty, request_x11) is blocked on the client while the messages arrive, and every value "
     "get_exception() hands out - also to that call - is judged; postc: messages for the open channel only, text-preferring mutations; "
+    "reply: 1-3 rounds per session x role; per round one of 15 application calls that wait for the peer's answer (5 kinds of channel open, "
+    "6 channel requests, 4 global requests) is pending and the answer to exactly that call (OPEN_CONFIRMATION/FAILURE, CHANNEL_SUCCESS/FAILURE, "
+    "REQUEST_SUCCESS/FAILURE with the ids in use) is sent with 1-2 mutations that prefer the integer fields (ids, reason codes, sizes, ports), "
+    "plus 0-1 further answers of any category; what each pending call raises is judged (clause pending-call-raises) in post/postc/reply; "
     "authk: scripted keyboard-interactive conversations (1-3 INFO_REQUEST rounds x 0-3 prompts x text-preferring mutations x 6 endings) "
     "through auth_interactive / auth_interactive_dumb / auth_password fallback (5 FAILURE method lists) x both transport classes; "
     "loop-count fields are kept <= 65535 by the value mutation; non-trivial = at least one mutated or out-of-stage "
